@@ -220,6 +220,22 @@ struct Driver
     alignas(Elem) unsigned char estore[NE + 1][sizeof(Elem)];
     int estate[NE + 1] = {0, 0, 0, 0};  // 0 absent 1 live 2 moved-from
     Elem& E(int x) { return *std::launder(reinterpret_cast<Elem*>(estore[x])); }
+    // twins: the same contents in a vector with a DIFFERENT allocator type (std::allocator), maintained for the
+    // comparison scenario only (C13/C14: results must not depend on the allocator combination)
+    using Twin = typename PL::template Vec<std::allocator<std::byte>>;
+    using TwinElem = typename Twin::value_type;
+    alignas(Twin) unsigned char tstore[NV + 1][sizeof(Twin)];
+    int tstate[NV + 1] = {0, 0, 0, 0};
+    std::size_t last_construct[NV + 1][2] = {};
+    Twin& TW(int v) { return *std::launder(reinterpret_cast<Twin*>(tstore[v])); }
+    void drop_twin(int v)
+    {
+        if (tstate[v])
+        {
+            TW(v).~Twin();
+            tstate[v] = 0;
+        }
+    }
     int salt_counter = 0;
     int pending_fault = 0;  // "Fail k": the k-th allocation of the next operation throws
     Out* out = nullptr;
@@ -688,7 +704,7 @@ struct Driver
         return o.str();
     }
 
-    std::string cmp_all(Vec& a, Vec& b)
+    std::string cmp_all(Vec& a, Vec& b, Twin* tb, Twin* ta)
     {
         const Vec& ca = a;
         const Vec& cb = b;
@@ -715,7 +731,24 @@ struct Driver
           << (cb < ca) << "," << (cb <= ca) << "," << (cb > ca) << "," << (cb >= ca) << "],\"K\":["
           << cmp_matrix("rr", R, R) << "," << cmp_matrix("cr", C, R) << "," << cmp_matrix("rc", R, C) << ","
           << cmp_matrix("cc", C, C) << "," << cmp_matrix("er", E, R) << "," << cmp_matrix("re", R, E) << ","
-          << cmp_matrix("ec", E, C) << "," << cmp_matrix("ee", E, E) << "]}";
+          << cmp_matrix("ec", E, C) << "," << cmp_matrix("ee", E, E);
+        if (ta && tb)
+        {
+            // operands with another allocator type: twin elements (value_type of the std::allocator vector) and
+            // the twin vectors themselves
+            const Twin& cta = *ta;
+            const Twin& ctb = *tb;
+            std::vector<TwinElem> X;
+            X.reserve(n1 + n2);
+            for (std::size_t i = 0; i < n1; ++i) X.emplace_back(cta[i]);
+            for (std::size_t i = 0; i < n2; ++i) X.emplace_back(ctb[i]);
+            o << "," << cmp_matrix("xr", X, R) << "," << cmp_matrix("cx", C, X);
+            o << "],\"vx\":[" << (ca == ctb) << "," << (ca != ctb) << "," << (ca < ctb) << "," << (ca <= ctb) << ","
+              << (ca > ctb) << "," << (ca >= ctb) << "," << (ctb == ca) << "," << (ctb != ca) << "," << (ctb < ca) << ","
+              << (ctb <= ca) << "," << (ctb > ca) << "," << (ctb >= ca) << "]}";
+        }
+        else
+            o << "],\"vx\":[]}";
         return o.str();
     }
 #endif
@@ -777,6 +810,27 @@ struct Driver
         }
     }
     template <std::size_t... I>
+    void emplace_twin(int v, int tag, const std::vector<int>& vs, std::index_sequence<I...>)
+    {
+        auto args = std::make_tuple(make_arg<I>(v, tag, -1, vs)...);
+        std::apply([&](auto&... a) { TW(v).emplace_back(a...); }, args);
+    }
+    void make_twin(int v)
+    {
+        const std::size_t cap = last_construct[v][0], bud = last_construct[v][1];
+        if constexpr (PL::all_plain)
+            new (tstore[v]) Twin(cap);
+        else if constexpr (PL::all_fixed)
+            new (tstore[v]) Twin(cap, vfixed[v]);
+        else if constexpr (PL::all_varying)
+            new (tstore[v]) Twin(cap, bud);
+        else
+            new (tstore[v]) Twin(cap, bud, vfixed[v]);
+        (void)bud;
+        tstate[v] = 1;
+    }
+
+    template <std::size_t... I>
     void emplace(int v, Vec& vec, int tag, int salt, const std::vector<int>& vs, std::index_sequence<I...>)
     {
         auto args = std::make_tuple(make_arg<I>(v, tag, salt, vs)...);
@@ -833,6 +887,8 @@ struct Driver
         bool want_fresh = false;
         bool thrown = false;
         std::string why;
+        if (op.n != "EmplaceC" && op.n != "CmpAll" && op.n != "Construct")
+            for (int q = 1; q <= NV; ++q) drop_twin(q);
         ledger().take_sub();
         const int fault = pending_fault;
         pending_fault = 0;
@@ -843,6 +899,8 @@ struct Driver
             {
                 construct(v, static_cast<std::size_t>(op.a[0]), static_cast<std::size_t>(op.a[1]), op.a[2]);
                 vstate[v] = 1;
+                last_construct[v][0] = static_cast<std::size_t>(op.a[0]);
+                last_construct[v][1] = static_cast<std::size_t>(op.a[1]);
             }
             else if (op.n == "DefaultConstruct")
             {
@@ -992,13 +1050,19 @@ struct Driver
                 {
                     std::vector<int> vs(op.a.begin() + 1, op.a.end());
                     vs.push_back(0);
+#ifndef VERIF_NO_CMP
+                    if (V(v).size() == 0 && !tstate[v]) make_twin(v);
+                    if (tstate[v] && TW(v).size() == V(v).size()) emplace_twin(v, op.a[0], vs, std::make_index_sequence<N>{});
+                    ledger().take_sub();
+#endif
                     emplace(v, V(v), op.a[0], -1, vs, std::make_index_sequence<N>{});
                 }
             }
 #ifndef VERIF_NO_CMP
             else if (op.n == "CmpAll")
             {
-                cmp = cmp_all(V(v), V(op.a[0]));
+                cmp = cmp_all(V(v), V(op.a[0]), (tstate[op.a[0]] && TW(op.a[0]).size() == V(op.a[0]).size()) ? &TW(op.a[0]) : nullptr,
+                              (tstate[v] && TW(v).size() == V(v).size()) ? &TW(v) : nullptr);
             }
 #endif
             else if (op.n == "WriteItem")
@@ -1171,6 +1235,7 @@ struct Driver
 
     void finish()
     {
+        for (int q = 1; q <= NV; ++q) drop_twin(q);
         ledger().take_sub();
 #ifndef VERIF_NO_ELEM
         for (int x = 1; x <= NE; ++x)
@@ -1220,6 +1285,7 @@ struct Driver
         pending_fault = 0;
         for (int v = 0; v <= NV; ++v) vstate[v] = 0;
         for (int x = 0; x <= NE; ++x) estate[x] = 0;
+        for (int q = 0; q <= NV; ++q) tstate[q] = 0;
         const unsigned junk = junkmode >= 0 ? static_cast<unsigned>(junkmode) : (seed + static_cast<unsigned>(h)) % 4;
         ledger().init(seed + static_cast<unsigned>(h), junk);
         registry().reset();
